@@ -272,6 +272,7 @@ func (c *Ctx) ParFor(n int64, f func(w *W, i int64)) {
 		}
 		w := c.Worker()
 		defer w.Done()
+		parforSeq++
 		for j, lo := int64(0), int64(0); lo < n; j, lo = j+1, lo+chunk {
 			if j%int64(shardN) != int64(shardK) {
 				continue
@@ -281,6 +282,7 @@ func (c *Ctx) ParFor(n int64, f func(w *W, i int64)) {
 				hi = n
 			}
 			for i := lo; i < hi; i++ {
+				announce(parforSeq, i)
 				f(w, i)
 			}
 		}
